@@ -896,6 +896,13 @@ def gen_effects():
     methods(evmod.ExperimentEvaluator, evmod, only={"__init__", "recompile", "__call__"})
     targets.append(("deterministic_proba", binmod.deterministic_proba, binmod))
     targets.append(("deterministic_choice", binmod.deterministic_choice, binmod))
+    try:
+        from pyab_experiment.utils import stats as statsmod
+        for n, f in vars(statsmod).items():
+            if inspect.isfunction(f) and f.__module__ == statsmod.__name__:
+                targets.append(("stats." + n, f, statsmod))
+    except Exception:  # noqa
+        pass
 
     effects = []
     for qn, f, mod in targets:
@@ -986,6 +993,9 @@ def gen_effects():
         ",\n".join("  ⟨%s, %s, %s⟩" % (lstr(a), lstr(k), lstr(t)) for a, k, t in effects),
         "]",
         "",
+        "/-- every function whose body was scanned (a function without writes has no entry in `effects`) -/",
+        "def scannedFunctions : List String := [" + ", ".join(lstr(t[0]) for t in targets) + "]",
+        "",
         "def freshLexerPerCall : Bool := %s" % b(fresh_lexer),
         "def freshParserPerCall : Bool := %s" % b(fresh_parser),
         "def codeHolderIsLocal : Bool := %s" % b(gen_fresh),
@@ -1019,6 +1029,70 @@ def gen_pipeline():
     return "\n".join(lines) + "\n", {}
 
 
+# --------------------------------------------------------------------------
+# what the package's own code may depend on besides its arguments
+# --------------------------------------------------------------------------
+
+AMBIENT_MODULES = {"os", "sys", "time", "datetime", "pathlib", "locale", "platform", "getpass", "socket", "uuid", "tempfile", "shutil", "glob",
+                   "subprocess", "threading", "multiprocessing", "signal", "gc", "io", "atexit", "ctypes", "resource", "secrets", "calendar",
+                   "logging", "warnings", "weakref", "contextvars", "asyncio", "queue", "sched", "fcntl", "select", "mmap", "zoneinfo", "urllib",
+                   "http", "importlib", "pkgutil", "site", "sysconfig", "builtins", "inspect", "traceback", "linecache", "tracemalloc", "faulthandler"}
+
+
+def gen_purity():
+    """Syntactic scan of every module of the package except the vendored sly: statements whose effect depends on interpreter flags
+    (`assert`, `__debug__`), on object identity (`id(...)`), or on the process environment (imports of os / sys / time / ... , `open`,
+    `input`, `random` other than the documented `choices` fallback)."""
+    import pyab_experiment
+    root = os.path.dirname(os.path.realpath(pyab_experiment.__file__))
+    debug, ident, ambient = [], [], []
+    nfiles = 0
+    for d, dirs, files in os.walk(root):
+        dirs[:] = sorted(x for x in dirs if x not in ("sly", "__pycache__"))
+        for f in sorted(files):
+            if not f.endswith(".py"):
+                continue
+            path = os.path.join(d, f)
+            rel = os.path.relpath(path, root)
+            try:
+                tree = ast.parse(open(path, encoding="utf-8").read())
+            except Exception as ex:  # noqa
+                ambient.append("%s: unparsable (%s)" % (rel, type(ex).__name__))
+                continue
+            nfiles += 1
+            for node in ast.walk(tree):
+                where = "%s:%d" % (rel, getattr(node, "lineno", 0))
+                if isinstance(node, ast.Assert):
+                    debug.append(where + " assert")
+                elif isinstance(node, ast.Name) and node.id == "__debug__":
+                    debug.append(where + " __debug__")
+                elif isinstance(node, ast.Call) and isinstance(node.func, ast.Name) and node.func.id == "id":
+                    ident.append(where + " id()")
+                elif isinstance(node, ast.Call) and isinstance(node.func, ast.Name) and node.func.id in ("open", "input", "breakpoint", "__import__", "globals", "vars"):
+                    ambient.append(where + " " + node.func.id + "()")
+                elif isinstance(node, ast.Import):
+                    for a in node.names:
+                        if a.name.split(".")[0] in AMBIENT_MODULES:
+                            ambient.append(where + " import " + a.name)
+                        elif a.name.split(".")[0] == "random":
+                            ambient.append(where + " import random")
+                elif isinstance(node, ast.ImportFrom) and node.module:
+                    top = node.module.split(".")[0]
+                    if top in AMBIENT_MODULES:
+                        ambient.append(where + " from " + node.module + " import …")
+                    elif top == "random" and {a.name for a in node.names} - {"choices"}:
+                        ambient.append(where + " from random import " + ",".join(a.name for a in node.names))
+    lines = ["/- GENERATED by tools/translate.py from /repo — do not edit -/", "namespace Pyab.Generated", "",
+             "/-- `assert` statements and uses of `__debug__` in the package's own modules (stripped by `python -O`) -/",
+             "def debugDependent : List String := [" + ", ".join(lstr(x) for x in debug) + "]", "",
+             "/-- calls of the builtin `id` (object identity / address) -/",
+             "def identityDependent : List String := [" + ", ".join(lstr(x) for x in ident) + "]", "",
+             "/-- imports and calls that read the process environment (file system, clock, interpreter state, …) -/",
+             "def ambientDependent : List String := [" + ", ".join(lstr(x) for x in ambient) + "]", "",
+             "def purityScannedFiles : Nat := %d" % nfiles, "", "end Pyab.Generated"]
+    return "\n".join(lines) + "\n", {"debug": debug, "identity": ident, "ambient": ambient, "files": nfiles}
+
+
 def main():
     import pyab_experiment
     src = os.path.realpath(os.path.dirname(pyab_experiment.__file__))
@@ -1042,6 +1116,7 @@ GENERATORS = [
     ("Config", gen_config),
     ("Pipeline", gen_pipeline),
     ("Effects", gen_effects),
+    ("Purity", gen_purity),
 ]
 
 if __name__ == "__main__":
